@@ -7,15 +7,15 @@ CHECKS = {
    note="Trusted: IC10 semantics table and loader written for this project, dialect interpreter (README semantics), real-arithmetic abstraction of doubles with concrete replay, environment model (reads fixed between effects). Known-miscompiled constructs are gated out of the family and kept as witnesses (known_findings.json).",
    technique="symbolic execution of emitted IC10 + source, z3 trace-equivalence per path, concrete replay"),
  "C04": dict(level="exploration", design="DESIGN.md 4 C04",
-   text="Lock-step of the virtual-register instruction list (captured at the real assign_registers call) and the allocated listing on the symbolic IC10 machine: at every register read of every explored path z3 decides whether the physical register can hold a value different from the one last written to the same virtual register. Register-pressure family: k simultaneously live values, k>16 must be rejected, only r0-r15 may appear.",
+   text="Lock-step of the virtual-register instruction list (captured at the real assign_registers call) and the allocated listing on the symbolic IC10 machine: at every register read of every explored path z3 decides whether the physical register can hold a value different from the one last written to the same virtual register. Register-pressure family: k simultaneously live values, k>16 must be rejected, only r0-r15 may appear; lifetime probes; recursive programs must be rejected (static register frames).",
    note="Trusted: IC10 machine semantics; the harness-side wrapper around assign_registers (the real function runs unchanged). Programs enumerated (seeded generator x option vectors, repository sources, pressure family); inputs solver-quantified within bounds.",
    technique="symbolic lock-step execution with z3 equality queries per register read, concrete replay"),
  "C06": dict(level="exploration", design="DESIGN.md 4 C06",
    text="Symbolic IC10 machine with a shadow call stack: at every `j ra` of every explored path the target must be the pending return address and sp must equal its value at the call (push/pop convention adjusted); the same call-graph programs are compared with the dialect interpreter under 8 calling-convention vectors; recursive programs must be rejected.",
-   note="Trusted: IC10 machine, dialect interpreter, function table captured from the compiler (arity, has-return). Call graphs enumerated (3 fixed + seeded), inputs solver-quantified.",
+   note="Trusted: IC10 machine, dialect interpreter, function table captured from the compiler (arity, has-return). Call graphs enumerated (6 fixed incl. function names that are suffixes / prefixes of each other + seeded), inputs solver-quantified.",
    technique="symbolic execution with shadow-stack monitor + z3 trace equivalence, concrete replay"),
  "C07": dict(level="exploration", design="DESIGN.md 4 C07",
-   text="Symbolic IC10 machine with region monitor (owner function of every line from the compiler's instruction list): on every explored path control may enter a function region only by a call / tail call to its first line or by a return. The main->first-function fall-through of the pinned tree is a known finding keyed by mechanism; any other crossing is a violation.",
+   text="Symbolic IC10 machine with region monitor (owner function of every line from the compiler's instruction list): on every explored path control may enter a function region only by a call / tail call to its first line or by a return. The main->first-function fall-through of the pinned tree is a known finding keyed by mechanism; any other crossing is a violation, and so is a fall-through into a function that no executed call reaches (constant tests incl. falsy named constants, dead statements).",
    note="Trusted: region alignment from the captured instruction list; IC10 machine. Programs enumerated, inputs solver-quantified.",
    technique="symbolic execution with region monitor, z3 path feasibility, concrete replay"),
  "C02": dict(level="translation_validation", design="DESIGN.md 4 C02",
@@ -23,23 +23,23 @@ CHECKS = {
    note="Trusted: loader + canonical form, IC10 machine, real-arithmetic abstraction with concrete replay. Programs enumerated; inputs solver-quantified within bounds.",
    technique="canonical-form grouping + symbolic IC10-vs-IC10 trace equivalence with z3, concrete replay"),
  "C03": dict(level="proof", design="DESIGN.md 4 C03, 2.3", engine="E2",
-   text="Set A: every entry of the real operator tables is executed on symbolic operands (z3 Float64 / signed 64-bit) through an instrumented copy of utils.py; per path z3 proves fold == IC10 semantics of the emitted opcode for all operand values in the stated range (bounded only by operand width; no sampling). Set B: constant-propagation shapes are checked by IC10-vs-IC10 equivalence of a folded program and its twin with operands loaded from the stack.",
+   text="Set A: every entry of the real operator tables is executed on symbolic operands (z3 Float64 / signed 64-bit) through an instrumented copy of utils.py; per path z3 proves fold == IC10 semantics of the emitted opcode for all operand values in the stated range (bounded only by operand width; no sampling). Set B: constant-propagation shapes are checked by IC10-vs-IC10 equivalence of a folded program and its twin with operands loaded from the stack. Set C: names bound once by a constant that are not constants (parameters, re-bindings) compared source vs emitted code.",
    note="Trusted: Python float/int semantics of the proxies, IC10 oracle semantics, uninterpreted pow/fmod shared by both sides, z3. Proof level refers to Set A (all values); Set B enumerates shapes.",
    technique="symbolic execution of the real fold lambdas into QF_BVFP, z3 validity per path, replay on the real table"),
  "C05": dict(level="exploration", design="DESIGN.md 4 C05",
-   text="Per program and option vector: labelled output loads (each referenced label defined once), numeric targets of the de-labelled output in range, and the label-free canonical forms of both are identical (line-for-line statement); on mismatch z3 trace equivalence shows the behavioural difference. Identifier quantifier: adversarial name pool instantiated in templates (enumerated).",
-   note="The identifier dimension is enumerated, not solver-quantified (symbolic label strings through remove_labels are not built). Trusted: loader and canonical form.",
+   text="Per program and option vector: labelled output loads (each referenced label defined once), numeric targets of the de-labelled output in range, and the label-free canonical forms of both are identical (line-for-line statement); on mismatch z3 trace equivalence shows the behavioural difference. The construct a jump was generated for is decided semantically: break / continue in nested loops of every mix, early returns, compared with the source on the symbolic machine with labels kept and removed. Identifier quantifier: adversarial name pool instantiated in templates (enumerated) plus the real remove_labels executed on symbolic label names (E3).",
+   note="Label names of 1..3 (thorough 4) symbolic characters over a 4-letter alphabet are solver-quantified; longer names are enumerated from the pool. Trusted: loader and canonical form, ReProxy (the one regex shape).",
    technique="closed canonical-form comparison of real outputs; z3 IC10-vs-IC10 equivalence on mismatch"),
  "C08": dict(level="exploration", design="DESIGN.md 4 C08",
    text="Verbose and compact outputs of the same source are loaded (independent CRC-32, STR packing, statically extracted enum tables) and must be the same canonical instruction sequence; E2 part: calc_hash / compute_string / _apply_output_mode executed on symbolic arguments.",
-   note="Enum name->number is taken from the repository's tables (C16 checks their consistency).",
+   note="Enum name->number is taken from the repository's tables (C16 checks their consistency); where the repository documents a member's number (instruction documentation in the intrinsic wrappers) the table must agree, other members have no second source in the repository.",
    technique="closed canonical comparison via independent loader + symbolic execution of the numeric kernels with z3"),
  "C09": dict(level="exploration", design="DESIGN.md 4 C09",
    text="Every output of every family under rotating/all option vectors is parsed against an IC10 signature table written for this project (cross-checked with webapp/src/ic10.json); placeholders and Python spellings are rejected; version-note line <= 90. E2 part: IC10Operand/format_int/version-note arithmetic on symbolic values.",
    note="Grammar table is the trusted base; scientific notation treated as unloadable.",
    technique="grammar-table loading of real outputs + symbolic execution of the formatter kernels with z3"),
  "C12": dict(level="translation_validation", design="DESIGN.md 4 C12",
-   text="Seeded constexpr programs (bit-field, arithmetic, HASH, branch, chained bodies; call positions in main, expressions, arguments, function bodies, library modules): the real output is compared on the symbolic IC10 machine with the dialect interpreter, in which the decorated function is ordinary Python evaluation; no label/instruction may be owned by a decorated function; open/eval/exec bodies must be rejected.",
+   text="Seeded constexpr programs (bit-field, arithmetic, HASH, branch, chained bodies; call positions in main, expressions, arguments, function bodies, library modules): the real output is compared on the symbolic IC10 machine with the dialect interpreter, in which the decorated function is ordinary Python evaluation; no label/instruction may be owned by a decorated function; open/eval/exec bodies (direct and indirect uses) must be rejected; fixed families: HASH() in a constexpr body on 20 unusual legal strings, 11 argument/result kinds crossing the process boundary, edit sequences compiled in one process.",
    note="Only device inputs are solver-quantified; constexpr bodies, argument literals and call positions are enumerated. Child-process timeouts are retried, then inconclusive.",
    technique="symbolic IC10 machine vs interpreter (z3 trace equivalence), concrete replay"),
  "C13": dict(level="translation_validation", design="DESIGN.md 4 C13",
@@ -47,11 +47,11 @@ CHECKS = {
    note="Module splits enumerated; inputs solver-quantified. Labels kept (label removal with equal names across modules is the C05 finding).",
    technique="symbolic IC10-vs-IC10 and source-vs-IC10 trace equivalence with z3, concrete replay"),
  "C15": dict(level="exploration", design="DESIGN.md 4 C15, 2.4", engine="E3",
-   text="The real compile_code (instrumented copy, Compiler stubbed) is executed on source strings whose blanks, junk, separators, '-'/'_' spellings and line-boundary look-alikes are symbolic characters over stated alphabets; every feasible path of the scanner is explored with z3 deciding branch feasibility, every string class is compared with a specification written from the property text, and mismatches are replayed on the real compile_code.",
-   note="Bounded: templates with <= 5 symbolic characters, lengths concrete; spellings on which the property text is silent are skipped. Trusted: SymStr string semantics, the specification.",
+   text="The real compile_code (instrumented copy, Compiler stubbed) is executed on source strings whose blanks, junk, separators, '-'/'_' spellings and line-boundary look-alikes are symbolic characters over stated alphabets; every feasible path of the scanner is explored with z3 deciding branch feasibility, every string class is compared with a specification written from the property text, and mismatches are replayed on the real compile_code. Multi-line families (the same option on three / five lines with symbolic polarity, repeated identical lines), first / last / 71st line, options as object or dict, library-module directives that must be ignored.",
+   note="Bounded: templates with <= 6 symbolic characters, lengths concrete; spellings on which the property text is silent are skipped. Trusted: SymStr string semantics, the specification.",
    technique="symbolic execution of the real directive scanner over symbolic-character strings, z3 path feasibility, replay"),
  "C16": dict(level="other", design="DESIGN.md 4 C16",
-   text="Closed obligations per table row discharged by z3 (bit-vector CRC-32 of each prefab name == stored hash; Distinct over each enum) and by direct comparison on the real objects (plural/singular, slot aliases, intrinsic wrappers called with sentinels). Exhaustive over all rows; there is no symbolic input.",
+   text="Closed obligations per table row discharged by z3 (bit-vector CRC-32 of each prefab name == stored hash; Distinct over each enum) and by direct comparison on the real objects (plural/singular, all four batch-method accessors of every plural class unnamed and named, slot aliases, intrinsic wrappers called with sentinels and compiled in value and statement form, enum numbers given in the wrappers' instruction documentation vs the table). Exhaustive over all rows; there is no symbolic input.",
    note="Instruction signatures (destination register or not) from the table of vf/ic10.py.",
    technique="closed z3 bit-vector / Distinct obligations over every table row"),
  "C17": dict(level="proof", design="DESIGN.md 4 C17", engine="E2",
@@ -59,7 +59,7 @@ CHECKS = {
    note="Abstract text model: non-empty lines without line breaks joined by one newline.",
    technique="symbolic execution of the real statistics statements into linear integer arithmetic, z3 validity"),
  "C18": dict(level="model_checking", design="DESIGN.md 4 C18", engine="E2",
-   text="The real encode_data/decode_data statements run with base64/zlib/json replaced by contract stubs; the base64 text is a SymStr with symbolic alphabet characters; for each compressed length m (1..24 quick, 1..96 thorough) z3 proves that every emitted character is URL-safe and that the text reaching b64decode equals what b64encode produced; padding arithmetic proved for all m in LIA; concrete dictionaries replay the contracts.",
+   text="The real encode_data/decode_data statements run with base64/zlib/json replaced by contract stubs; the base64 text is a SymStr with symbolic alphabet characters; for each compressed length m (quick 1..96 and 1000, thorough 1..400 and up to 8191) z3 proves position by position that every emitted character is URL-safe and that the text reaching b64decode equals what b64encode produced (one path covers all 64^k texts); the size of the JSON document is a symbolic integer, so a size limit on the inflated text (decompressobj max_length) is a path whose model is replayed with a document of that size; padding arithmetic proved for all m in LIA; concrete dictionaries (up to 150 kB) replay the contracts.",
    note="Library contracts are the trusted base (listed in evidence).",
    technique="symbolic execution with contract stubs over symbolic base64 characters, z3 validity per length"),
 }
